@@ -154,13 +154,26 @@ class World:
         run_cwd = cwd or self.repo
         if not plain and cwd is None:
             inv = getattr(self, "invoke", "cwd")
+            pathless = not any(a == "--" for a in args) and args and args[0] in ("commit", "status", "rebase", "cherry-pick", "merge", "log", "stash", "reset", "checkout", "switch", "branch")
+            sd = os.path.join(self.repo, getattr(self, "subdir", "."))
             if inv == "dash-C":
                 pre = ["-C", self.repo]
                 run_cwd = self.root
-            elif inv == "subdir" and not any(a == "--" for a in args) and args and args[0] in ("commit", "status", "rebase", "cherry-pick", "merge", "log", "stash", "reset", "checkout", "switch", "branch"):
-                sd = os.path.join(self.repo, getattr(self, "subdir", "."))
+            elif inv == "dash-C-c":
+                # -C together with another global option
+                pre = ["-C", self.repo, "-c", "verif.ctx=1"]
+                run_cwd = self.root
+            elif inv == "dash-C-C":
+                # two -C options (the second relative to the first); for commands without path arguments the second one goes on into the sub-directory
+                pre = ["-C", self.root, "-C", os.path.relpath(self.repo, self.root)] + (["-C", getattr(self, "subdir", ".")] if pathless and os.path.isdir(sd) else [])
+                run_cwd = "/"
+            elif inv in ("subdir", "subdir-c") and pathless:
                 if os.path.isdir(sd):
                     run_cwd = sd
+                if inv == "subdir-c":
+                    pre = ["-c", "verif.ctx=1"]      # a sub-directory together with a global option
+            elif inv == "subdir-c":
+                pre = ["-c", "verif.ctx=1"]
         if plain or self.mode in ("plain", "hooks"):
             argv = [REAL_GIT] + pre + list(args)
         else:
